@@ -25,11 +25,14 @@ class FakePool(object):
     def map(self, fn, iterable, chunksize=None):
         mp = self.mp
         tasks = list(iterable)
-        blobs = [pickle.dumps(t, protocol=pickle.HIGHEST_PROTOCOL) for t in tasks]
-        n = len(blobs)
+        n = len(tasks)
         if chunksize is None:
             chunksize = mp.chunksize or max(1, -(-n // (4 * self.workers)))
         chunks = [list(range(s, min(n, s + chunksize))) for s in range(0, n, chunksize)]
+        # multiprocessing pickles one CHUNK of tasks at a time: objects shared by the task tuples of a chunk (the same
+        # ndarray passed to every task) arrive in the worker as ONE object per chunk, not one per task
+        chunk_blob = {c[0]: pickle.dumps([tasks[i] for i in c], protocol=pickle.HIGHEST_PROTOCOL) for c in chunks}
+        unpacked = {}
         # chunks are handed to whichever worker asks next; model that by a seeded assignment
         queues = [[] for _ in range(self.workers)]
         for c in chunks:
@@ -44,7 +47,11 @@ class FakePool(object):
                 current[w] = list(queues[w].pop(0))
             idx = current[w].pop(0)
             mp.running_task = idx
-            args = pickle.loads(blobs[idx])
+            if idx not in unpacked:
+                head = [c for c in chunks if idx in c][0]
+                for i, t in zip(head, pickle.loads(chunk_blob[head[0]])):
+                    unpacked[i] = t
+            args = unpacked.pop(idx)
             if mp.fail_task is not None and idx == mp.fail_task:
                 mp.running_task = None
                 raise TaskError('injected failure of task %d' % idx)
